@@ -486,11 +486,21 @@ def showEntry (e : Entry) : String :=
   s!"first={if e.obj.firstBin then 1 else 0} split={if e.obj.isSplited then 1 else 0} " ++
   s!"dumpsz={e.obj.valueDumpSize} dump={Hex.encode e.obj.dump}"
 
+/-- (damaged inputs only) a listpack-typed value whose blob is an INTEGER-encoded
+    string: Go builds it with `[]byte(strconv.FormatInt(..))`, whose capacity
+    exceeds its length, so `NewListpack`'s header reslices `data[:4]`, `data[4:6]`
+    succeed on a 1–11 byte blob where the model (no notion of capacity) fails.
+    Both sides print `xcap` for such an entry instead of its expansion. -/
+def capDependent (p : PObj) : Bool :=
+  (p.rtype == 16 || p.rtype == 17 || p.rtype == 20) &&
+    (match p.buf with | b :: _ => b == 0xC0 || b == 0xC1 || b == 0xC2 | [] => false)
+
 def l1Lines (tag : String) (d : DCfg) (x : XCfg) (bs : Bytes) : List String :=
   let (es, ok) := parseRdb d bs
   es.flatMap (fun e =>
     (tag ++ showEntry e) ::
-      (match execCmd x e.obj with
+      (if capDependent e.obj then [tag ++ "xcap"] else
+       match execCmd x e.obj with
        | none => [tag ++ "xerr"]
        | some cs => cs.map (fun c => tag ++ "c " ++ showCmd c)))
   ++ [tag ++ (if ok then "done" else "err")]
